@@ -768,7 +768,7 @@ def write_evidence(pid, tier, sel, recs, violations, known, inconclusive, wall):
 def calibrate(names, jobs):
     """Record min_props (vacuity guard b) = 90% of the obligations generated today."""
     units = load_units()
-    sel = [u for u in units if not names or u['name'] in names or u['_file'][:-5] in names]
+    sel = [u for u in units if (u['name'] in names) or ((not names or u['_file'][:-5] in names) and u['tier'] == 'quick')]
     for u in sel:
         u['min_props'] = 1
     with ThreadPoolExecutor(max_workers=jobs) as ex:
